@@ -1394,6 +1394,11 @@ inline void url::swap(url& other) UPA_NOEXCEPT_17 {
 // Returns validation_errc::ok on success, or an error value on parsing failure.
 template <typename CharT>
 inline validation_errc url::do_parse(const CharT* first, const CharT* last, const url* base) {
+    if (base == this) {
+        // the base URL is this object, which is about to be overwritten: parse against a copy
+        const url base_copy(*base);
+        return do_parse(first, last, &base_copy);
+    }
     const validation_errc res = [&]() {
         detail::url_serializer urls(*this);
 
